@@ -239,6 +239,13 @@ pub fn big_alphabet() -> Vec<Snippet> {
             }
         }
     }
+    // a word loaded through a register that merely still holds its entry value (s0, ra) is not
+    // a load from the stack, whatever its offset
+    for base in [S0, RA] {
+        for off in [-8, -4, 0, 4] {
+            v.push(vec![inst(Inst::Load(LOp::Lw, T2, base, off))]);
+        }
+    }
     for op in [SOp::Sb, SOp::Sh, SOp::Sw] {
         for val in [T0, RA, S0, ZERO, A0] {
             for base in [SP, T0] {
